@@ -28,6 +28,21 @@ COOKIE_KEY = b'C00KIE-SIGNING-KEY-7781'
 ROUTE_KINDS = ['function', 'lambda', 'method', 'callable', 'static', 'classmethod', 'decorated']
 
 
+def _host_mws():
+    from clastic.middleware.context import SimpleContextProcessor, ContextProcessor
+    from clastic.middleware.url import ScriptRootMiddleware
+    from clastic.middleware import GetParamMiddleware, HTTPCacheMiddleware, SimpleProfileMiddleware
+    from clastic.middleware.form import PostDataMiddleware
+    # any middleware a host may carry -- including ones of the very types the meta application uses itself
+    return {'simplectx': lambda: SimpleContextProcessor(), 'simplectx-named': lambda: SimpleContextProcessor('host_value'),
+            'ctxproc': lambda: ContextProcessor(defaults={'host_default': 1}), 'scriptroot-other': lambda: ScriptRootMiddleware('host_root'),
+            'getparam': lambda: GetParamMiddleware(['hq']), 'postdata': lambda: PostDataMiddleware(['hp']),
+            'cache': lambda: HTTPCacheMiddleware(), 'profile': lambda: SimpleProfileMiddleware()}
+
+
+HOST_MWS = _host_mws()
+
+
 class ReprHolder(object):
     def __init__(self, text):
         self.text = text
@@ -91,7 +106,7 @@ class C18(Check):
     level_text = ('Single host-call faults are enumerated completely (every call site x every documented exception and unusual '
                   'value, both views) on a fixed host; host applications and multi-fault plans are sampled.')
     level_note = 'Trusted: the catalogue of what each host call can raise/return (sim/core/hoststub.py).'
-    required_probes = ('secret-redacted-html', 'secret-redacted-json', 'fault-fired-page-200', 'all-calls-failing', 'depth-2',
+    required_probes = ('host-shares-middleware-type-with-meta', 'secret-redacted-html', 'secret-redacted-json', 'fault-fired-page-200', 'all-calls-failing', 'depth-2',
                        'plain-visible', 'bad-repr-section-inline', 'cookie-mw-present')
 
     # ---- generation --------------------------------------------------------
@@ -110,6 +125,7 @@ class C18(Check):
                 'routes': [rng.choice(ROUTE_KINDS) for _ in range(rng.randint(0, 4))],
                 'renders': rng.choice(['none', 'basic', 'callable']),
                 'cookie': rng.random() < 0.5, 'extra_mws': rng.random() < 0.4,
+                'host_mws': rng.sample(sorted(HOST_MWS), rng.randint(0, 3)),
                 'prefix': rng.choice(['/_meta/', '/m', '/deep/er/meta/', '/']), 'depth': rng.choice([1, 1, 2]),
                 'static': rng.random() < 0.3, 'embedded': rng.random() < 0.4}
 
@@ -188,6 +204,8 @@ class C18(Check):
             mws.append(SignedCookieMiddleware(secret_key=COOKIE_KEY))
         if cfg.get('extra_mws'):
             mws += [GzipMiddleware(), StatsMiddleware()]
+        for name in cfg.get('host_mws', []):
+            mws.append(HOST_MWS[name]())
         meta = MetaApplication()
         prefix = cfg['prefix']
         inner_res = res_dict(cfg['inner_resources'], 'inner')
@@ -221,6 +239,8 @@ class C18(Check):
                 return res
             if cfg.get('cookie'):
                 res.probe('cookie-mw-present')
+            if set(cfg.get('host_mws', [])) & set(['simplectx', 'simplectx-named']):
+                res.probe('host-shares-middleware-type-with-meta')
             if cfg['depth'] == 2:
                 res.probe('depth-2')
             for step, op in enumerate(plan['ops']):
